@@ -463,7 +463,8 @@ def compute_cardinalities(input_dataframe: pd.DataFrame, pbar: Any, max_unique_h
             GLOBAL_COUNTS_STORAGE[column].add(value)
 
         for unique_value in unique_values:
-            if unique_value:
+            # only the empty string denotes a missing value; 0 / 0.0 of a numeric column is a value like any other
+            if not (isinstance(unique_value, str) and unique_value == ''):
                 GLOBAL_CARDINALITY_STORAGE[column].add(internal_hash(unique_value))
 
         pbar.set_description(f'Computing cardinality (Hyperloglog update) {enx+1}/{input_dataframe.shape[1]}')
